@@ -12,5 +12,6 @@ CONSTANTS
   MaxResp = 3
   MaxCalls = 3
   Families = {"upload"}
+  SizesForAll = FALSE
   Level = "export"
 INVARIANT Props
